@@ -115,6 +115,8 @@ func (r *Run) call(st *State, fr *Frame, x *ssa.Call, b *ssa.BasicBlock, idx int
 		}
 		spec, cs := r.v.specFor(origin)
 		if spec != nil && !spec.Has("inline") {
+			r.pendingFree = free
+			defer func() { r.pendingFree = nil }()
 			res := r.applyContract(st, fr, x, origin, spec, cs, args, cte)
 			fr.regs[x] = res
 			return true
@@ -154,7 +156,9 @@ func (r *Run) call(st *State, fr *Frame, x *ssa.Call, b *ssa.BasicBlock, idx int
 	if ok {
 		spec, cs := r.v.specFor(ci.fn)
 		if spec != nil && !spec.Has("inline") {
+			r.pendingFree = ci.bindings
 			fr.regs[x] = r.applyContract(st, fr, x, ci.fn, spec, cs, args, te)
+			r.pendingFree = nil
 			return true
 		}
 		if r.inlinable(ci.fn, fr) {
@@ -327,6 +331,14 @@ func (r *Run) applyContract(st *State, fr *Frame, x *ssa.Call, callee *ssa.Funct
 		}
 	}
 	env := &SpecEnv{run: r, st: st, cs: cs, te: cte, mode: "pre", vars: vars, fn: callee}
+	var freePtrs map[string]freeBinding
+	if callee != nil && len(callee.FreeVars) > 0 && len(r.pendingFree) == len(callee.FreeVars) {
+		freePtrs = map[string]freeBinding{}
+		for i, fv := range callee.FreeVars {
+			freePtrs[fv.Name()] = freeBinding{ptr: r.pendingFree[i], t: derefType(fv.Type())}
+		}
+		env.freePtrs = freePtrs
+	}
 	cname := spec.Target
 	for _, c := range spec.ClausesOf("requires") {
 		if c.Tagged && currentProp != "" {
@@ -400,7 +412,7 @@ func (r *Run) applyContract(st *State, fr *Frame, x *ssa.Call, callee *ssa.Funct
 		res.L[0] = st.freshRef()
 	}
 	r.assumeWF(st, res, cte)
-	post := &SpecEnv{run: r, st: st, old: pre, cs: cs, te: cte, mode: "pre", vars: vars, fn: callee}
+	post := &SpecEnv{run: r, st: st, old: pre, cs: cs, te: cte, mode: "pre", vars: vars, fn: callee, freePtrs: freePtrs}
 	post.result = res
 	post = post.with(r.resultVars(spec, sig, res, cte))
 	for _, c := range spec.ClausesOf("set") {
